@@ -109,6 +109,8 @@ def run(repo, rep):
     rule_pre_check_shape_rank(repo, rep)
     rep.clause("C13-bf", "a byte view of tensor data is taken of a flattened array (a 0-d array cannot change its item size): `<x>.view(<8-bit type>)` in the writer follows flatten() / ravel() / reshape(-1)")
     rule_byte_view_rank(repo, rep)
+    rep.clause("C13-bg", "rewrites that run before the supported-operator check use a tensor's scale as a scalar only after a returning per-axis test")
+    rule_pre_check_scalar_scales(repo, rep)
     rep.clause("C13-ax", "an operator that the optimisation driver itself creates from a subgraph's tensors (not from an operator that passed the checks) is submitted to the supported-operator check before the driver returns")
     rule_driver_created_operators(repo, rep)
     rep.clause("C13-ay", "STRIDED_SLICE begin / end positions end up inside [0, dim] whatever the operand holds (the offsets become read windows unchecked)")
@@ -2952,3 +2954,37 @@ def rule_byte_view_rank(repo, rep):
                 rep.check(flat, "C13-bf", f"{m.rel}:{q}", f"`{str(norm(c))[:70]}` views a flattened array", f"receiver `{str(norm(recv))[:50]}` may be 0-d: a float32 / int32 scalar constant of a CPU operator raises ValueError in the writer")
     if n < 1:
         raise AnalysisError("byte views in the writer: none found")
+
+
+def rule_pre_check_scalar_scales(repo, rep):
+    """(bg) the rewrites that run before the supported-operator check also see operands with per-axis quantisation (the per-axis constraint
+    belongs to that check). Where such a rewrite hands `<tensor>.quantization.scale_f32` to arithmetic that needs a scalar (quantise_scale ->
+    math.frexp, round_away_zero, a truth test), a returning test of `is_per_axis()` precedes the first use."""
+    go = repo.mod("tflite_graph_optimiser")
+    tg = go.func("tflite_optimise_graph")
+    lists = {st.targets[0].id: st.value for st in ast.walk(tg) if isinstance(st, ast.Assign) and isinstance(st.targets[0], ast.Name) and isinstance(st.value, ast.List)}
+    pre = []
+    for c in sorted((c_ for c_ in ast.walk(tg) if isinstance(c_, ast.Call) and (call_name(c_) or "").endswith("rewrite_graph_pre_order")), key=lambda c_: c_.lineno):
+        kw = {k.arg: k.value for k in c.keywords}
+        oplist = c.args[4] if len(c.args) > 4 else kw.get("op_rewrite_list")
+        if isinstance(oplist, ast.Name):
+            oplist = lists.get(oplist.id)
+        names = [e.id for e in oplist.elts if isinstance(e, ast.Name)] if isinstance(oplist, ast.List) else []
+        if "supported_operator_check" in names:
+            break
+        pre += names
+    n = 0
+    for nm in pre:
+        fn = go.functions.get(nm)
+        if fn is None:
+            continue
+        uses = [x for x in ast.walk(fn) if isinstance(x, ast.Attribute) and x.attr == "scale_f32" and isinstance(x.ctx, ast.Load)]
+        if not uses:
+            continue
+        n += 1
+        first = min(u.lineno for u in uses)
+        guards = [i_ for i_ in ast.walk(fn) if isinstance(i_, ast.If) and "is_per_axis()" in str(norm(i_.test)) and i_.body and isinstance(i_.body[-1], ast.Return) and i_.lineno < first]
+        rep.check(bool(guards), "C13-bg", f"ethosu/vela/tflite_graph_optimiser.py:{nm}", f"{len(uses)} scalar uses of scale_f32 follow a returning `is_per_axis()` test",
+                  "no per-axis test before the scale is used as a scalar: QUANTIZE of a constant into a per-axis quantised output hands an array to quantise_scale (TypeError in math.frexp) - the rewrite runs before the supported-operator check")
+    if n < 1:
+        raise AnalysisError("pre-check passes: no use of scale_f32 found")
